@@ -93,28 +93,28 @@ def ioLine : List Srv.Out → List String
 
 /-- server side of the driver: one session, and the pool oracle of the harness (`sv hold k` … `sv release`) -/
 structure Sv where
-  conn : Srv.Conn := {}
+  conn : Srv.ConnU := {}
   /-- `some k`: the free worker is parked and exactly `k` more `tryEnqueue` calls succeed -/
   held : Option Nat := none
 
 /-- run every queued request (the harness waits for the pool to drain) -/
-def runWorkers : Nat → Srv.Conn → List Srv.Out → Srv.Conn × List Srv.Out
+def runWorkers : Nat → Srv.ConnU → List Srv.Out → Srv.ConnU × List Srv.Out
   | 0, c, acc => (c, acc)
   | f + 1, c, acc =>
     if c.pending.isEmpty then (c, acc)
-    else let r := Srv.connWork c; runWorkers f r.1 (acc ++ r.2)
+    else let r := Srv.connWorkU c; runWorkers f r.1 (acc ++ r.2)
 
-def svLine (c : Srv.Conn) (outs : List Srv.Out) : String :=
+def svLine (c : Srv.ConnU) (outs : List Srv.Out) : String :=
   s!"{joinEvs (workerLine outs)} | io={joinEvs (ioLine outs)} | buf={if c.sess.alive then c.sess.buffer.length else 0} alive={bit c.sess.alive}"
 
 def svData (s : Sv) (d : Bytes) : Sv × String :=
   match s.held with
   | some k =>
-    let (c1, outs, k') := Srv.connData s.conn d k
+    let (c1, outs, k') := Srv.connDataU s.conn d k
     ({ conn := c1, held := some k' }, svLine c1 outs)
   | none =>
     -- not held: the queue is empty and far larger than anything one read can hold, every request is accepted and run
-    let (c1, outs, _) := Srv.connData s.conn d Gen.Http.serverPoolQueueSize
+    let (c1, outs, _) := Srv.connDataU s.conn d Gen.Http.serverPoolQueueSize
     let (c2, outs2) := runWorkers (c1.pending.length + 1) c1 outs
     ({ s with conn := c2 }, svLine c2 outs2)
 
@@ -178,7 +178,7 @@ def step (st : St) : List String → St × String
     match ofHex hx with
     | some d => let (s', o) := svData st.sv d; ({ st with sv := s' }, o)
     | none => (st, "bad-op")
-  | ["sv", "closed"] => ({ st with sv := { st.sv with conn := Srv.connClosed st.sv.conn } }, "ok")
+  | ["sv", "closed"] => ({ st with sv := { st.sv with conn := Srv.connClosedU st.sv.conn } }, "ok")
   | ["sv", "hold", k] =>
     match k.toNat?, st.sv.held with
     | some k, none => ({ st with sv := { st.sv with held := some (min k Gen.Http.serverPoolQueueSize) } }, "ok")
